@@ -74,7 +74,7 @@ def run(outcome, tier, seed):
                                          "packet": packet, "detect": detect})
     # memory: the same stream at N and 4N
     mem = []
-    for fmt in ("json", "msgpack", "yaml", "yaml16", "yaml32"):
+    for fmt in ("json", "msgpack", "yaml", "yaml16", "yaml32", "yamlx"):
         for detect in (False, True):
             for size in (64, 4000, 100000):
                 n = 4000 if size < 1000 else (600 if size < 50000 else 60)
